@@ -510,9 +510,17 @@ def havoc_target(fv, sub, mname, st, post, vals, closure):
         vs = [(k, t) for k, t in fv.field_variants(attr) if k in keys]
         if not vs:
             raise EngineError('modifies %s: undeclared field' % mname)
+        # record objects built in this function that (syntactically) do not escape before the return statement cannot be
+        # reached by the callee: their fields survive (same rule as for unknown callees, slicing.havoc_state); an unescaped
+        # record is never an argument of the call, so this does not contradict the callee's frame
+        keep = [st.env[n].term for n in sorted(getattr(fv, 'unescaped_records', ())) if n in st.env
+                and st.env[n].ty.strip_opt().is_obj] if fv.in_slice() else []
         for key, fty in vs:
-            fv.heap_array(st, attr, fty)
-            post.heap[key] = z3.Const('H_%s!%d' % (key, next(E.counter)), z3.ArraySort(P.V, zsort(fty)))
+            old_arr = fv.heap_array(st, attr, fty)
+            new_arr = z3.Const('H_%s!%d' % (key, next(E.counter)), z3.ArraySort(P.V, zsort(fty)))
+            for o in keep:
+                fv.add_fact(st, z3.Implies(o != P.none, z3.Select(new_arr, o) == z3.Select(old_arr, o)))
+            post.heap[key] = new_arr
         return
     key = mname
     src = post.env
